@@ -63,8 +63,15 @@ def calls(max_pos, named_names, max_named):
                         yield ", ".join(parts), (npos, named, seq, mp)
 
 
-def defsrc(params, names, fname="f"):
-    return f"def {fname}({params}):\n    return [{', '.join(names)}]\n"
+# callee bodies: the default returns every bound parameter; the others are shapes the optimiser special-cases (type-is
+# shortcut, constant / identity inlining) - binding and rejection must not depend on the body
+BODIES = {"tuple": None, "typeis": "type(p0) == type(1)", "const": "7", "ident": "p0", "call": "len([p0])"}
+
+
+def defsrc(params, names, fname="f", body="tuple"):
+    if BODIES.get(body) is None:
+        return f"def {fname}({params}):\n    return [{', '.join(names)}]\n"
+    return f"def {fname}({params}):\n    return {BODIES[body]}\n"
 
 
 def oracle(items):
@@ -85,11 +92,15 @@ def oracle(items):
 def run(tier):
     res = vlib.Result(PID, tier, "exploration")
     q = tier == "quick"
-    sigs = list(signatures(2 if q else 3, 1 if q else 2))
+    sigs = [(p, n, "tuple") for p, n in signatures(2 if q else 3, 1 if q else 2)]
+    # the special-cased bodies, for every signature whose first parameter is p0 (quick: one positional parameter at most)
+    for p, n in signatures(1 if q else 2, 1 if q else 2, illegal=False):
+        if n and n[0] == "p0":
+            sigs += [(p, n, b) for b in BODIES if b != "tuple"]
     cls = list(calls(3 if q else 4, ["p0", "p1", "k0", "zz"] if q else ["p0", "p1", "p2", "k0", "k1", "zz"], 2 if q else 2))
     vlib.log(f"[C08] {len(sigs)} signatures x {len(cls)} calls")
     call_texts = [c for c, _ in cls]
-    orc = oracle([{"defs": defsrc(p, n), "calls": [f"f({c})" for c in call_texts]} for p, n in sigs])
+    orc = oracle([{"defs": defsrc(p, n, body=b), "calls": [f"f({c})" for c in call_texts]} for p, n, b in sigs])
     specs, meta = [], []
     n_def_err = n_ok = n_fail = 0
     CH = 60
@@ -103,14 +114,20 @@ def run(tier):
     distinct = set()
     samples = []
 
-    def build(params, names, o, specs, meta):
+    def build(params, names, body, o, specs, meta):
         nonlocal n_def_err, n_ok, n_fail
-        d = defsrc(params, names)
+        d = defsrc(params, names, body=body)
+        params = params if body == "tuple" else f"{params}  [body: return {BODIES[body]}]"
         if o.get("def_error"):
             n_def_err += 1
             specs.append({"steps": [d + "emit(1)\n"]})
             meta.append(("def-reject", params, None, None))
             return
+        if body == "tuple":
+            # host API only (the surface syntax cannot even write it): a repeated argument name, adjacent or not, must be rejected
+            for dup in (("p0", "p0"), ("p0", "k0", "p0"), ("zz", "p0", "zz"), ("k0", "zz", "p1", "k0"), ("zz", "yy", "zz"), ("p1", "p0", "k0", "p1")):
+                specs.append(host_spec(d, (0, dup, None, None)))
+                meta.append(("fail:host", params, "host eval_function with named arguments " + repr(dup), None))
         lib = [["lib.star", d]]
         oks = [(c, sh, e) for (c, sh), e in zip(cls, o["res"]) if e is not None]
         bad = [(c, sh) for (c, sh), e in zip(cls, o["res"]) if e is None]
@@ -220,8 +237,8 @@ def run(tier):
     B = 10 if not q else len(sigs)
     for i in range(0, len(sigs), B):
         specs, meta = [], []
-        for (params, names), o in zip(sigs[i:i + B], orc[i:i + B]):
-            build(params, names, o, specs, meta)
+        for (params, names, body), o in zip(sigs[i:i + B], orc[i:i + B]):
+            build(params, names, body, o, specs, meta)
         judge(specs, meta)
     vlib.log(f"[C08] {stats['programs']} programs ({n_ok} well-formed calls, {n_fail} ill-formed, {n_def_err} rejected signatures)")
     res.coverage = {
